@@ -330,8 +330,132 @@ pub fn c16_typical(idx: u64) -> Option<String> {
     None
 }
 
+/// Chains whose levels ALTERNATE between two variants of one container style (margins 0 / 4 on one side, a max-size on one axis
+/// growing with the level), non-stretch alignment, a text-like leaf, one axis of the available space definite and far larger
+/// than every max-size: successive queries of one container then differ only in a definite available space, the situation
+/// in which two queries can fall into the same cache slot.  216 chains, depths 8 / 16 / 32.
+pub fn c16_alternating(idx: u64) -> Option<String> {
+    let kind = idx % 4;
+    let align = (idx / 4) % 3;
+    let side = (idx / 12) % 2;
+    let clamp = (idx / 24) % 3;
+    let which_avail = (idx / 72) % 3;
+    let avail = match which_avail {
+        0 => Size { width: AvailableSpace::MaxContent, height: AvailableSpace::Definite(5000.0) },
+        1 => Size { width: AvailableSpace::Definite(5000.0), height: AvailableSpace::MaxContent },
+        _ => Size::MAX_CONTENT,
+    };
+    let m = |px: f32| {
+        if side == 0 {
+            Rect { left: zero(), right: zero(), top: length(px), bottom: zero() }
+        } else {
+            Rect { left: length(px), right: zero(), top: zero(), bottom: zero() }
+        }
+    };
+    let mut counts = vec![];
+    for depth in [8usize, 16, 32] {
+        let leaf_style = Style { margin: m(4.0), max_size: Size { width: auto(), height: length(380.0) }, ..Default::default() };
+        let mut node = NodeSpec { style: leaf_style, ctx: Some(Ctx::Text(17, 8.0)), children: vec![] };
+        for level in 0..depth {
+            let mut s = Style { margin: m(if level % 2 == 0 { 0.0 } else { 4.0 }), ..Default::default() };
+            match kind {
+                0 => s.display = Display::Flex,
+                1 => {
+                    s.display = Display::Flex;
+                    s.flex_direction = FlexDirection::Column;
+                }
+                2 => s.display = Display::Grid,
+                _ => s.display = Display::Block,
+            }
+            s.align_items = [Some(AlignItems::FlexStart), Some(AlignItems::Center), None][align as usize];
+            let grow = 400.0 + 20.0 * level as f32;
+            match clamp {
+                0 => s.max_size = Size { width: auto(), height: length(grow) },
+                1 => s.max_size = Size { width: length(grow), height: auto() },
+                _ => {}
+            }
+            node = NodeSpec { style: s, ctx: None, children: vec![node] };
+        }
+        let mut t: TaffyTree<Ctx> = TaffyTree::new();
+        let mut ids = vec![];
+        let root = build(&mut t, &node, &mut ids);
+        MEASURE_CALLS.with(|c| c.set(0));
+        MEASURE_LIMIT.with(|c| c.set(64 * (depth as u64 + 1) + 1));
+        #[cfg(taffy_verif)]
+        {
+            taffy::verif_hooks::reset_queries();
+            taffy::verif_hooks::set_query_limit(200_000);
+        }
+        let r = std::panic::catch_unwind(std::panic::AssertUnwindSafe(|| compute(&mut t, root, avail)));
+        #[cfg(taffy_verif)]
+        taffy::verif_hooks::set_query_limit(u64::MAX);
+        MEASURE_LIMIT.with(|c| c.set(u64::MAX));
+        counts.push(MEASURE_CALLS.with(|c| c.get()));
+        if r.is_err() || counts[counts.len() - 1] > 64 * (depth as u64 + 1) {
+            break;
+        }
+    }
+    let last = *counts.last().unwrap();
+    if counts.len() < 3 || last > counts[1] {
+        return Some(format!(
+            "counts={} kind {kind} (0 flex row, 1 flex column, 2 grid, 3 block) align {align} (0 start, 1 center, 2 default) margin side {side} clamp {clamp} (0 max-height, 1 max-width, 2 none) avail {which_avail}: leaf measure calls at depths 8/16/32",
+            counts.iter().map(|x| x.to_string()).collect::<Vec<_>>().join(",")
+        ));
+    }
+    None
+}
+
+/// Extreme-value corpus: trees whose sizes overflow f32 (content-box width f32::MAX plus padding f32::MAX gives +inf) or are
+/// huge but finite.  The laziness clauses must hold for them like for any other tree: a second layout with the same available
+/// space makes no measure call, and no node is dirty after a pass.  Prints one `FAIL extreme <k> ...` line per violated clause.
+pub fn c15_extreme() {
+    let huge_leaf = |w: f32, pad: f32| Style {
+        box_sizing: BoxSizing::ContentBox,
+        size: Size { width: length(w), height: auto() },
+        padding: Rect { left: length(pad), right: zero(), top: zero(), bottom: zero() },
+        flex_shrink: 0.0,
+        ..Default::default()
+    };
+    let mut k = 0;
+    for (w, pad) in [(f32::MAX, f32::MAX), (f32::MAX, 0.0), (1.0e30, 1.0e30), (3.0e38, 1.0e38)] {
+        for outer in [Display::Flex, Display::Block, Display::Grid] {
+            k += 1;
+            let mut t: TaffyTree<Ctx> = TaffyTree::new();
+            t.disable_rounding();
+            let huge = t.new_leaf_with_context(huge_leaf(w, pad), Ctx::Fixed(30.0, 20.0)).unwrap();
+            let normal = t.new_leaf_with_context(Style { flex_shrink: 0.0, ..Default::default() }, Ctx::Fixed(30.0, 20.0)).unwrap();
+            let row = t.new_with_children(Style { display: outer, ..Default::default() }, &[huge, normal]).unwrap();
+            let root = t.new_with_children(Style { display: Display::Flex, flex_direction: FlexDirection::Column, ..Default::default() }, &[row]).unwrap();
+            let all = [root, row, huge, normal];
+            let r = std::panic::catch_unwind(std::panic::AssertUnwindSafe(|| {
+                compute(&mut t, root, Size::MAX_CONTENT);
+                let dirty: Vec<usize> = (0..4).filter(|i| t.dirty(all[*i]).unwrap()).collect();
+                MEASURE_CALLS.with(|c| c.set(0));
+                compute(&mut t, root, Size::MAX_CONTENT);
+                (dirty, MEASURE_CALLS.with(|c| c.get()))
+            }));
+            match r {
+                Ok((dirty, calls)) => {
+                    if !dirty.is_empty() {
+                        println!("FAIL extreme {k} width {w:e} padding {pad:e} in a {outer:?} container: nodes {dirty:?} (0 root, 1 container, 2 huge leaf, 3 normal leaf) are dirty right after compute_layout");
+                    }
+                    if calls != 0 {
+                        println!("FAIL extreme {k} width {w:e} padding {pad:e} in a {outer:?} container: a second compute_layout of the unchanged tree made {calls} measure calls");
+                    }
+                }
+                Err(_) => println!("SKIP extreme {k} (layout panics: C03's business)"),
+            }
+        }
+    }
+    println!("EXTREME {k}");
+}
+
 pub fn main15(args: &[String]) {
     std::panic::set_hook(Box::new(|_| {}));
+    if args[0] == "extreme" {
+        c15_extreme();
+        return;
+    }
     let seed: u64 = args[1].parse().unwrap();
     let start: u64 = args[2].parse().unwrap();
     let n: u64 = args[3].parse().unwrap();
@@ -358,15 +482,16 @@ pub fn main16(args: &[String]) {
     let n: u64 = args[3].parse().unwrap();
     #[cfg(taffy_verif)]
     taffy::verif_hooks::set_exact_key(args.get(4).map(|s| s == "1").unwrap_or(false));
-    if args[0] == "typical" {
+    if args[0] == "typical" || args[0] == "alternating" {
+        let alternating = args[0] == "alternating";
         let handles: Vec<_> = (0..16u64)
             .map(|t| {
                 std::thread::spawn(move || {
                     let mut out = vec![];
                     let mut idx = start + t;
                     while idx < start + n {
-                        if let Ok(Some(m)) = std::panic::catch_unwind(|| c16_typical(idx)) {
-                            out.push(format!("FAIL {idx} typical {m}"));
+                        if let Ok(Some(m)) = std::panic::catch_unwind(|| if alternating { c16_alternating(idx) } else { c16_typical(idx) }) {
+                            out.push(format!("FAIL {idx} {} {m}", if alternating { "alternating" } else { "typical" }));
                         }
                         idx += 16;
                     }
